@@ -23,7 +23,8 @@ from vlib.front import unparse, dotted, const_value, AnchorMissing
 from vlib.shape import Shape, Space, Ix, Q, D, BoolT, StrT, NoneT, SizeOf, UNK, is_unk, Arr, Rec, Tup, ListT, DictT, B
 from obligations.shape_tables import (model_attrs, M, Tmpl, Clu, Chan, Samp, Spike, AMP, AMPWH, CNT)
 
-FLOOR = 19
+FLOOR = 11          # decided obligations below this = the analysis lost its footing (exit 2); clean tree: 32
+RULES = ('C08.A0', 'C08.A1', 'C08.A2', 'C08.A3', 'C08.A4')          # every obligation group must report (holds / violated / undecided): a group that vanishes silently is an analysis error
 EXPLANATION = ('shape engine over the curation methods of TemplateModel with callees inline (get_template, get_template_counts, '
                'get_cluster_spikes, _spikes_in_clusters): dictionary key/value kinds, array axes, alignment of weights with the averaged axis, '
                'scatter/gather index spaces; plus structural rules on the branch of _load_data')
@@ -208,6 +209,18 @@ def run(ctx):
             ctx.violated('C08.A3', mw, c0, 'the channel list is taken from the first / last contributing template (`%s`), not from the one with most spikes' % unparse(arg))
         else:
             ctx.undecided('C08.A3', mw, 'selection of the dominant template `%s` not recognised' % text[:80], c0)
+    # "the mean of its templates' CHANNEL-RESTRICTED waveforms": every contributing template is looked up on its own (default) channel restriction - an
+    # explicit channel list makes get_template return the full waveform on those channels, without the restriction to the template's own best channels
+    contrib = [(f_, c_) for f_ in repo.transparent_closure(mw) for c_ in f_.calls() if q.method_name(c_) == 'get_template']
+    explicit = [(f_, c_) for f_, c_ in contrib if q.arg(c_, 1, 'channel_ids') is not None and not (isinstance(q.arg(c_, 1, 'channel_ids'), ast.Constant) and q.arg(c_, 1, 'channel_ids').value is None)]
+    if explicit:
+        ctx.violated('C08.A3', explicit[0][0], explicit[0][1], 'a template of the cluster is looked up on the explicit channel list `%s`: get_template then returns its full waveform on those '
+                     'channels instead of its channel-restricted waveform (zero outside its own channels), and the weighted mean is wrong wherever templates peak on different channels'
+                     % unparse(q.arg(explicit[0][1], 1, 'channel_ids')))
+    elif len(contrib) >= 2:
+        ctx.holds('C08.A3', mw, 'every template of the cluster is looked up on its own channel restriction (no explicit channel list)', contrib[0][1])
+    else:
+        ctx.undecided('C08.A3', mw, 'the template lookups of get_cluster_mean_waveforms were not found')
     # the flag reaches every template lookup, in this function and in the helpers extracted from it (the dimension obligations above decide the same fact
     # semantically; this names the call)
     sites = _flag_sites(repo, mw, mw.params[2], 0)
